@@ -10,17 +10,17 @@ NOTE = ("Trusted: Lean 4.33.0 kernel (axioms per theorem are printed by the audi
         "the hand-written model's tie to /repo is the correspondence harness run on every invocation "
         "(generators bound what it sees), numpy/scipy leaves as listed in DESIGN 2.7.")
 
-CLAIMED = {
-    "C10": dict(
-        text=("Lean theorems (any linear order, any data vector, any number of intervals): with one shared sorted edge list every "
-              "observation in the covered range is in exactly one pre-drop interval (right-open, left-open, include_max), "
-              "masks are aligned with input positions, members lie within reported boundaries, adjacent boundaries share their edge, "
-              "exactly the small intervals are dropped in order, error iff too few; PointsPerInterval chunks partition the positions "
-              "for every permutation. Tie to the code: the executable model reproduces masks/references/boundaries of the three real "
-              "slicers bit for bit on every explored case (exhaustive lattice vectors, random, edge-probing); the sortedness side "
-              "condition and all clauses are also evaluated on the implementation's own output."),
-        design="3/C10", technique="Lean 4 proof over a hand-written model + differential correspondence (bit-exact)"),
-}
+def load_claims():
+    """claims/Cxx.json: {"text":..., "design":..., "technique":..., optional "note":...} — one file per claimed property"""
+    d = os.path.join(VERIF, "claims")
+    out = {}
+    for fn in sorted(os.listdir(d)):
+        if fn.endswith(".json"):
+            out[fn[:-5]] = json.load(open(os.path.join(d, fn)))
+    return out
+
+
+CLAIMED = load_claims()
 
 REASONS_PENDING = "check not built yet in this round; planned per DESIGN.md section 3 (no technique switch)"
 
@@ -46,7 +46,7 @@ def main():
             na.append({"property_id": pid, "reason": REASONS_PENDING})
     m = {
         "version": 1,
-        "setup_cmd": "cd /verif/lean && lake build",
+        "setup_cmd": "cd /verif && python3 tools/regen_index.py && cd lean && lake build",
         "hooks": {
             "guard": "VIROCON_VERIF",
             "enable": "no source hooks: the harness observes the real code in-process (subclassing, recording callables, monkey-patching inside the harness process)",
@@ -62,7 +62,7 @@ def main():
         }],
         "checks": checks,
         "not_applicable": na,
-        "notes": "See DESIGN.md. Fix commits in /repo are listed in KNOWN_FINDINGS.txt (fixed: lines).",
+        "notes": "See DESIGN.md. Fix commits in /repo are listed in known_findings/*.txt (fixed: lines).",
     }
     json.dump(m, open(os.path.join(VERIF, "MANIFEST.json"), "w"), indent=1)
 
